@@ -114,8 +114,12 @@ import os; os.environ['VERIF_ORDERS'] = %(nord)r
 from corpus import illegal_designs as ID
 i, expected = %(i)d, %(exp)r
 fam, name, oi, cn, exp, mid = ID.index()[i]
-got = ID.outcome(i)
-ok = (got is None and expected is None) or (expected is not None and got in expected.split('|'))
+junk = []
+for attempt in range(12):          # elaboration walks sets of freshly allocated objects: an outcome may depend on their order
+  got = ID.outcome(i)
+  ok = (got is None and expected is None) or (expected is not None and got in expected.split('|'))
+  if not ok: break
+  junk.append([object() for _ in range(41 * (attempt + 1))])
 if not ok:
   reproduced(f"{fam} / {name} (statement order {oi}: {mid}): elaboration " + (f"raised {got}" if got else "succeeded") + ", the rules demand " + (expected or "a legal design"))
 '''
